@@ -50,6 +50,11 @@ func runC16(c *Ctx) {
 	c.Floor("C16.K1b-no-wait-under-mutex", 1)
 
 	closeFn := c.Func(pkg, "Receiver.Close")
+	// Close and the phases it may be split into (unexported functions called from it only)
+	inClose := func(fn *ssa.Function) bool {
+		fn = topFunc(fn)
+		return closeFn != nil && (fn == closeFn.SSA || c.routineOf(fn) == closeFn.SSA)
+	}
 	if closeFn == nil {
 		c.Unk("C16.K2-close-once", "announce.(*Receiver).Close", token.NoPos, "exported method Receiver.Close not found")
 		return
@@ -84,7 +89,7 @@ func runC16(c *Ctx) {
 				}
 			case "recv":
 				key += " " + op.Chan.String()
-				if _, ok := Match(Field("watchDone", Any()), op.Chan); ok && topFunc(op.Fn) == closeFn.SSA {
+				if _, ok := Match(Field("watchDone", Any()), op.Chan); ok && inClose(op.Fn) {
 					// counterpart liveness: K4 + K6
 					c.OK("C16.K3-shutdown-alternative", key, op.Pos, "awaits the watcher; its termination is obligation K4 (cancel precedes) and K6 (watcher leaves its loop on cancel)")
 				} else {
@@ -101,7 +106,20 @@ func runC16(c *Ctx) {
 
 	// ---- K4: cancelWatch() before <-watchDone -----------------------------------
 	var cancelCall, waitRecv ssa.Instruction
-	instrs(closeFn.SSA, func(in ssa.Instruction) {
+	closeBody := closeFn.SSA
+	for _, f := range c.Funcs(pkg) {
+		// (the phase of Close that waits for the watcher)
+		if inClose(f.SSA) && f.SSA != closeFn.SSA {
+			instrs(f.SSA, func(in ssa.Instruction) {
+				if u, ok := in.(*ssa.UnOp); ok && u.Op == token.ARROW {
+					if _, ok := Match(Field("watchDone", Any()), c.E(u.X)); ok {
+						closeBody = f.SSA
+					}
+				}
+			})
+		}
+	}
+	instrs(closeBody, func(in ssa.Instruction) {
 		// a deferred cancel runs only after the wait: it does not count
 		if ci, ok := in.(*ssa.Call); ok {
 			if _, ok := Match(Op("dyncall", "", Field("cancelWatch", Any())), c.CallX(ci)); ok {
@@ -292,7 +310,7 @@ func runC16(c *Ctx) {
 	}
 	// (b) the closed flag true edge returns ErrClosed, and the delivery routine passes it on
 	for _, f := range c.Funcs(pkg) {
-		if f.SSA == closeFn.SSA {
+		if inClose(f.SSA) {
 			continue
 		}
 		for _, b := range f.SSA.Blocks {
@@ -508,15 +526,21 @@ func receiverCloseSignals(c *Ctx, rule string) {
 		return
 	}
 	var mark *ssa.Store
-	instrs(cl.SSA, func(in ssa.Instruction) {
-		if st, ok := in.(*ssa.Store); ok {
-			if a := c.E(st.Addr); a.Op == "field" && a.Name == "closed" && fieldOwner(a) == "Receiver" {
-				if v, isConst := boolConst(c.E(st.Val)); isConst && v {
-					mark = st
+	for _, f := range c.Funcs("announce") {
+		// (Close itself, or the phase of it that marks the receiver closed)
+		if f.SSA != cl.SSA && c.routineOf(f.SSA) != cl.SSA {
+			continue
+		}
+		instrs(f.SSA, func(in ssa.Instruction) {
+			if st, ok := in.(*ssa.Store); ok {
+				if a := c.E(st.Addr); a.Op == "field" && a.Name == "closed" && fieldOwner(a) == "Receiver" {
+					if v, isConst := boolConst(c.E(st.Val)); isConst && v {
+						mark = st
+					}
 				}
 			}
-		}
-	})
+		})
+	}
 	if mark == nil {
 		c.Unk(rule, cl.Name+" › marks the receiver closed", cl.SSA.Pos(), "no store closed = true found")
 		return
